@@ -495,6 +495,48 @@ def runLive20 (kv : List (String × String)) : IO Res := do
     | _ => pure ()
   return .ok tags (some s!"{lc.threads.length}/{principal.isSome}/{tags.eraseDups}")
 
+def isTrailWs (b : UInt8) : Bool := b == 32 || (9 ≤ b && b ≤ 13)
+
+/-- C15 on a real dump: the thread-names stream pairs every listed thread that has a readable name with
+    that name (the kernel's comm, trailing white space trimmed), once, and names nothing else -/
+def runLive15 (kv : List (String × String)) : IO Res := do
+  let lc ← match ← loadLive kv with
+    | .ok l => pure l
+    | .error e => return .bad e
+  let mut tags := cfgTags lc.cfg
+  if lc.result != "ok" then return .ok ("dump.failed" :: tags)
+  let some base := get kv "base" | return .bad "base"
+  let some commB ← readSidecar (("comm", s!"@{base}.comm") :: kv) "comm" | return .bad "comm"
+  let commText := (String.fromUTF8? commB).getD ""
+  let comms : List (Nat × Option Bytes) := (commText.splitOn "\n").filterMap (fun l =>
+    match l.splitOn " " with
+    | [t, h] => t.toNat?.map (fun tid => (tid, if h == "-" then none else unhex h))
+    | _ => none)
+  let some d := findStream lc.dir ST_THREAD_NAMES | return .propfail "no thread-names stream" tags
+  let some recs := decodeThreadNames lc.img.rd d.rva | return .propfail "thread-names stream unreadable" tags
+  let tids := recs.map (·.1)
+  if tids.eraseDups.length != tids.length then return .propfail s!"a thread is named twice: {tids}" tags
+  for (tid, name) in recs do
+    if !lc.threads.any (fun t => t.tid == tid) then return .propfail s!"a name is given for {tid}, which is not in the thread list" tags
+    let some (some comm) := (comms.find? (fun c => c.1 == tid)).map (·.2) | continue
+    let trimmed := (comm.reverse.dropWhile isTrailWs).reverse
+    match String.fromUTF8? (ByteArray.mk trimmed.toArray) with
+    | some str =>
+      if name != encode16 str.toList then
+        return .propfail s!"thread {tid} is named {name}, its comm is {hex trimmed}" tags
+      tags := (if trimmed.isEmpty then "name.empty" else if trimmed.any (· ≥ 128) then "name.nonascii" else "name.checked") :: tags
+    | none => return .propfail s!"thread {tid} has a name record although its comm is not valid UTF-8" tags
+  -- every listed thread with a readable (UTF-8) comm is named
+  for t in lc.threads do
+    let some (some comm) := (comms.find? (fun c => c.1 == t.tid)).map (·.2) | continue
+    let trimmed := (comm.reverse.dropWhile isTrailWs).reverse
+    if (String.fromUTF8? (ByteArray.mk trimmed.toArray)).isSome && !recs.any (fun r => r.1 == t.tid) then
+      return .propfail s!"listed thread {t.tid} (comm {hex trimmed}) has no name record" tags
+  -- order: as in the thread list
+  let listed := lc.threads.map (·.tid) |>.filter (fun t => tids.contains t)
+  if listed != tids then return .propfail "name records are not in thread-list order" tags
+  return .ok tags (some s!"{recs.length}/{lc.threads.length}/{tags.eraseDups}")
+
 /-- C12 on a real dump: every captured stack of a sanitizing dump equals the model's sanitisation of the
     target's bytes (the call site: which bytes, which stack pointer, which offset, which mapping list) -/
 def runLive12 (kv : List (String × String)) : IO Res := do
